@@ -75,3 +75,9 @@ check('C08', 'simdist', 'exploration', 'differential oracle (bucketed vs direct 
       'every future is compared exactly with the sum over the requested group and with the real unbucketed allreduce; the backend trace must be an order-preserving, capacity-respecting segmentation; '
       'a second flush must issue nothing.',
       'All members of a group submit the same tensors for that group in the same order; distinct groups means distinct member sets.', 'DESIGN.md §3 C08')
+
+check('C13', 'simdist', 'exploration', 'structural invariant at quiescent points (walk of tensors held per layer vs is_grad_worker / memory_usage) + per-step trace accounting by group class',
+      'After every step of generated multi-rank runs: a rank holds second-order bytes for a layer iff it is a gradient worker, memory_usage() equals the bytes walked; the backend trace per step and rank '
+      'is accounted by group class: only factor allreduces of the exact volume on the default group on factor steps, only inverse broadcasts (right volume, root) in gradient-worker groups on inverse steps, '
+      'only gradient broadcasts in receiver groups; nothing in a world of one.',
+      'Held tensors = reachable from vars(layer); simdist stands in for the backend; histories are construction + steps.', 'DESIGN.md §3 C13')
